@@ -165,9 +165,10 @@ RENAMED_OR_SAME = ('all(len(s.graph[k]._jump_targets) == len(%s._jump_targets) a
                    ' and s.graph[k].backedges[i] == new_region_name) for i in range(len(%s.backedges))) %s)' % ((B,) * 8 + (ALLSUBS,)))
 # the facts are needed at and below the argument's sub-graph only (during the recursion the sub-graph above is incomplete:
 # its exiting block has been popped and is added back after the recursive call)
-DEEP = 'for s in all_subs() if sub_depth(s) >= sub_depth(%s.subregion) for k in %s' % (RB, G)
+DEEP = ('for s in all_subs() if sub_depth(s) >= sub_depth(%s.subregion) and chain_root(s) == chain_root(%s.subregion) for k in %s'
+        % (RB, RB, G))
 UPRE = {
-    'wf': 'nesting_wf()',
+    'wf': 'nesting_wf(%s.subregion)' % RB,
     'keys': 'all(%s.name == k %s)' % (B, DEEP),
     'exiting': 'all(%s.exiting in graph_at_entry(%s.subregion) %s if isinstance(%s, RegionBlock))' % (B, B, DEEP, B),
     'branch': 'all(table_ok(%s) and distinct(%s._jump_targets) %s if isinstance(%s, SyntheticBranch))' % (B, B, DEEP, B),
@@ -179,9 +180,10 @@ NO_STALE_PRE = ('all(implies(not %s, not %s) %s if isinstance(%s, RegionBlock))'
                 % (HAS_H % (B, B), HAS_H % (EX, EX), DEEP, B))
 NB = 's.graph[k]'
 NEX = '%s.subregion.graph[%s.exiting]' % (NB, NB)
-NO_STALE_POST = ('all(implies(not %s, not %s) for s in all_subs() if sub_depth(s) >= sub_depth(%s.subregion) for k in s.graph'
+NO_STALE_POST = ('all(implies(not %s, not %s) for s in all_subs() if sub_depth(s) >= sub_depth(%s.subregion)'
+                 ' and chain_root(s) == chain_root(%s.subregion) for k in s.graph'
                  ' if isinstance(%s, RegionBlock) and %s.exiting in %s.subregion.graph)'
-                 % (HAS_H % (NB, NB), HAS_H % (NEX, NEX), RB, NB, NB, NB))
+                 % (HAS_H % (NB, NB), HAS_H % (NEX, NEX), RB, RB, NB, NB, NB))
 
 register(Contract(
     qual=TR + ':update_exiting', params={'region_block': 'block', 'new_region_header': 'name', 'new_region_name': 'name'},
@@ -199,6 +201,8 @@ register(Contract(
         'no-stale': NO_STALE_POST,
         # nothing above the argument's sub-graph is written
         'shallower-same': 'all(same_graph(s) for s in all_subs() if sub_depth(s) < sub_depth(%s.subregion))' % RB,
+        # ... nor anything in the trees of other top-level regions
+        'other-trees-same': 'all(same_graph(s) for s in all_subs() if chain_root(s) != chain_root(%s.subregion))' % RB,
         'level-1-clean': 'not %s' % (HAS_H % (UNE, UNE)),
         'same-keys': 'all(set(s.graph) == set(%s) for s in all_subs())' % G,
         'renamed-or-same': RENAMED_OR_SAME,
@@ -409,4 +413,152 @@ register(Contract(
         'e-done-cur': 'all(%s for p in predecessors if p == name)' % H_L1,
     }},
     properties=['C14', 'C04'], gen='insert_ctrl', slices=4,
+))
+
+
+# ---- extract_region (transformations.py), top level: the blocks of `region_blocks` move into a new sub-graph unchanged, a
+# region block takes their place, every entry is re-targeted from the header to the region (down its exiting chain if it is a
+# region itself); C05 (conservation), C04 (header / exiting / sub-graph of the new region), C14, C18
+XG0 = 'old.scfg.graph'
+XRN = 'gen_region_name(region_kind, get(old.scfg.name_gen.kinds, region_kind, 0))'
+XOUT = 'any(t in region_blocks for o in %s if o not in region_blocks for t in %s[o]._jump_targets)' % (XG0, XG0)
+XENT = '(%s not in region_blocks and any(t in region_blocks for t in old.scfg.graph[%s]._jump_targets))'
+XNEW = 'scfg.graph[%s]' % XRN
+# o is an entry that is a region block
+XRENT = '(isinstance(scfg.graph[%s], RegionBlock) and %s not in region_blocks and any(t in region_blocks for t in scfg.graph[%s]._jump_targets))'
+XTREE = ('for o in scfg.graph if %s for s in all_subs() if chain_root(s) == chain_root(scfg.graph[o].subregion) for k in %s'
+         % (XRENT % ('o', 'o', 'o'), G))
+XHDR0 = 'scfg.find_headers_and_entries(region_blocks)[0][0]'
+XSUBDEF = ('all(k in graph_now(head_subgraph) and graph_now(head_subgraph)[k] == old.scfg.graph[k] for k in region_blocks)'
+           ' and all(k in region_blocks for k in graph_now(head_subgraph))')
+XRENT0 = XRENT.replace('scfg.graph', 'old.scfg.graph')
+XOE = 'graph_at_entry(old.scfg.graph[o].subregion)[old.scfg.graph[o].exiting]'
+XNE = 'graph_now(old.scfg.graph[o].subregion)[old.scfg.graph[o].exiting]'
+
+
+def _xl1(rn, hdr):
+    return ('len({ne}._jump_targets) == len({oe}._jump_targets) and all({ne}._jump_targets[i] == ({rn} if {oe}._jump_targets[i] == {hdr}'
+            ' else {oe}._jump_targets[i]) for i in range(len({oe}._jump_targets))) and len({ne}.backedges) == len({oe}.backedges)'
+            ' and all({ne}.backedges[i] == ({rn} if {oe}.backedges[i] == {hdr} else {oe}.backedges[i])'
+            ' for i in range(len({oe}.backedges)))').format(ne=XNE, oe=XOE, rn=rn, hdr=hdr)
+XHEADS = '{n for n in scfg.graph if not any(n in scfg.graph[p].jump_targets for p in scfg.graph)}'
+XEXC = '(scfg.graph[%s].is_exiting or any(t not in region_blocks for t in scfg.graph[%s].jump_targets))'
+XH = '%s.header' % XNEW
+XX = '%s.exiting' % XNEW
+XREN = '(%s if %%s[i] == %s else %%s[i])' % (XRN, XH)
+XRENAMED = ('len(scfg.graph[%%s]._jump_targets) == len(%s[%%s]._jump_targets) and len(scfg.graph[%%s].backedges) == len(%s[%%s].backedges)'
+            ' and all(scfg.graph[%%s]._jump_targets[i] == (%s if %s[%%s]._jump_targets[i] == %%s else %s[%%s]._jump_targets[i])'
+            ' for i in range(len(%s[%%s]._jump_targets)))'
+            ' and all(scfg.graph[%%s].backedges[i] == (%s if %s[%%s].backedges[i] == %%s else %s[%%s].backedges[i])'
+            ' for i in range(len(%s[%%s].backedges)))' % (XG0, XG0, XRN, XG0, XG0, XG0, XRN, XG0, XG0, XG0))
+
+
+def _xrenamed(k, hdr):
+    return XRENAMED % (k, k, k, k, k, k, hdr, k, k, k, k, hdr, k, k)
+
+
+register(Contract(
+    qual=TR + ':extract_region',
+    params={'scfg': 'SCFG', 'region_blocks': 'set[name]', 'region_kind': 'name', 'parent_region': 'block'},
+    heap=True, modifies=['scfg.graph', 'scfg.name_gen.kinds', 'parent_region', '$heap'],
+    locals={'jt': 'list[name]', 'be': 'list[name]'},
+    requires={
+        'top-level': 'scfg.region.kind == "meta"',
+        'keys': 'all(scfg.graph[k].name == k for k in scfg.graph)',
+        'blocks-in': 'all(b in scfg.graph for b in region_blocks)',
+        'name-fresh': '%s not in scfg.graph' % XRN.replace('old.', ''),
+        # exactly one block of the region is entered from outside (or none and the graph has one head) and exactly one
+        # leaves it - in the words of the two proved queries the function asks
+        'one-head': 'implies(not %s, card(%s) == 1)' % (XOUT.replace('old.', ''), XHEADS),
+        'head-in': 'implies(not %s, scfg.find_head() in region_blocks)' % XOUT.replace('old.', ''),
+        'one-header': 'len(scfg.find_headers_and_entries(region_blocks)[0]) == 1',
+        'one-exiting': 'len(scfg.find_exiting_and_exits(region_blocks)[0]) == 1',
+        # an entry that branches on a control variable has a sound value table (its targets are renamed, the table follows)
+        'branch-entries': 'all(table_ok(scfg.graph[o]) and distinct(scfg.graph[o]._jump_targets) for o in scfg.graph'
+                          ' if isinstance(scfg.graph[o], SyntheticBranch) and %s)' % (XENT % ('o', 'o')).replace('old.', ''),
+        # entries that are regions themselves: the tree of sub-graphs below each is well formed (what update_exiting needs)
+        'e-wf': 'all(nesting_wf(scfg.graph[o].subregion) for o in scfg.graph if %s)' % (XRENT % ('o', 'o', 'o')),
+        'e-roots': 'all(implies(o != o2, chain_root(scfg.graph[o].subregion) != chain_root(scfg.graph[o2].subregion))'
+                   ' for o in scfg.graph if %s for o2 in scfg.graph if %s)' % (XRENT % ('o', 'o', 'o'), XRENT % ('o2', 'o2', 'o2')),
+        'e-keys': 'all(%s.name == k %s)' % (B, XTREE),
+        'e-exiting': 'all(%s.exiting in graph_at_entry(%s.subregion) %s if isinstance(%s, RegionBlock))' % (B, B, XTREE, B),
+        'e-branch': 'all(table_ok(%s) and distinct(%s._jump_targets) %s if isinstance(%s, SyntheticBranch))' % (B, B, XTREE, B),
+        'e-top-exiting': 'all(scfg.graph[o].exiting in graph_at_entry(scfg.graph[o].subregion) for o in scfg.graph if %s)' % (XRENT % ('o', 'o', 'o')),
+        'e-fresh-name': 'all(%s not in %s._jump_targets %s if isinstance(%s, SyntheticBranch))' % (XRN.replace('old.', ''), B, XTREE, B),
+        'e-no-stale': 'all(implies(not (%s in %s._jump_targets or %s in %s.backedges), not (%s in %s._jump_targets or %s in %s.backedges))'
+                      ' %s if isinstance(%s, RegionBlock))' % (XHDR0, B, XHDR0, B, XHDR0, EX, XHDR0, EX, XTREE, B),
+    },
+    ensures={
+        # one region name of the requested kind and one "meta" name (the new sub-graph's own meta region) are taken
+        'kinds': 'all(get(scfg.name_gen.kinds, k, 0) == get(old.scfg.name_gen.kinds, k, 0) + (1 if k == region_kind else 0)'
+                 ' + (1 if k == "meta" else 0) for k in scfg.name_gen.kinds) and all(k in scfg.name_gen.kinds for k in old.scfg.name_gen.kinds)'
+                 ' and region_kind in scfg.name_gen.kinds and "meta" in scfg.name_gen.kinds',
+        'keys-kept': 'all(k in scfg.graph for k in %s if k not in region_blocks)' % XG0,
+        'keys-new': '%s in scfg.graph and all((k in %s and k not in region_blocks) or k == %s for k in scfg.graph)' % (XRN, XG0, XRN),
+        'non-entries': 'all(scfg.graph[k] == %s[k] for k in %s if k not in region_blocks and not %s)' % (XG0, XG0, XENT % ('k', 'k')),
+        'entries': 'all(ue_plain(%s[k], scfg.graph[k]) and ue_branch(%s[k], scfg.graph[k]) and %s for k in %s if %s)'
+                   % (XG0, XG0, _xrenamed('k', XH), XG0, XENT % ('k', 'k')),
+        'region': 'type(%s) is RegionBlock and %s.name == %s and len(%s.backedges) == 0 and %s.kind == region_kind'
+                  ' and %s in region_blocks and %s in region_blocks and %s._jump_targets == %s[%s].jump_targets'
+                  % (XNEW, XNEW, XRN, XNEW, XNEW, XH, XX, XNEW, XG0, XX),
+        'header-def': 'all(t == %s for o in %s if o not in region_blocks for t in %s[o]._jump_targets if t in region_blocks)' % (XH, XG0, XG0),
+        'exiting-def': '%s[%s].is_exiting or any(t not in region_blocks for t in %s[%s].jump_targets)' % (XG0, XX, XG0, XX),
+        'moved': 'all(k in graph_now(%s.subregion) and graph_now(%s.subregion)[k] == %s[k] for k in region_blocks)'
+                 ' and all(k in region_blocks for k in graph_now(%s.subregion))' % (XNEW, XNEW, XG0, XNEW),
+        # the exiting block of an entry that is a region is re-targeted with it, position by position
+        'e-level-1': 'all(%s for o in %s if %s)' % (_xl1(XRN, XH), XG0, XRENT0 % ('o', 'o', 'o')),
+        # sub-graphs that are neither the new one nor below an entry are not written
+        'h-untouched': 'all(same_graph(s) for s in all_subs() if s != %s.subregion and not any(%s and chain_root(s) == chain_root(%s[o].subregion)'
+                       ' for o in %s))' % (XNEW, XRENT0 % ('o', 'o', 'o'), XG0, XG0),
+        'parent': 'parent_region == replace(old.parent_region, header=(%s if %s == old.parent_region.header else old.parent_region.header),'
+                  ' exiting=(%s if %s == old.parent_region.exiting else old.parent_region.exiting))' % (XRN, XH, XRN, XX),
+    },
+    loops={
+        'for name in entries': LoopSpec(inv={
+            'dom': 'all(k in scfg.graph for k in %s) and all(k in %s for k in scfg.graph)' % (XG0, XG0),
+            'untouched': 'all(same_value(scfg.graph[k], %s[k]) for k in %s if k not in _i_seen)' % (XG0, XG0),
+            'done': 'all(ue_plain(%s[k], scfg.graph[k]) and ue_branch(%s[k], scfg.graph[k]) and %s for k in _i_seen)'
+                    % (XG0, XG0, _xrenamed('k', 'region_header')),
+            'h-new': 'same_value(graph_now(head_subgraph), entry.head_subgraph.graph)',
+            'e-done': 'all(%s for o in _i_seen if isinstance(%s[o], RegionBlock))' % (_xl1('region_name', 'region_header'), XG0),
+            'h-untouched': 'all(same_graph(s) for s in all_subs() if s != head_subgraph and not any(isinstance(%s[o], RegionBlock)'
+                           ' and chain_root(s) == chain_root(%s[o].subregion) for o in _i_seen))' % (XG0, XG0),
+        }),
+        'for idx, s in enumerate(jt)': LoopSpec(index='_i', inv={
+            'len': 'len(jt) == len(entry.jt)',
+            'done': 'all(jt[i] == (region_name if entry.jt[i] == region_header else entry.jt[i]) for i in range(_i))',
+            'rest': 'all(jt[i] == entry.jt[i] for i in range(_i, len(jt)))'}),
+        'for idx, s in enumerate(be)': LoopSpec(index='_i', inv={
+            'len': 'len(be) == len(entry.be)',
+            'done': 'all(be[i] == (region_name if entry.be[i] == region_header else entry.be[i]) for i in range(_i))',
+            'rest': 'all(be[i] == entry.be[i] for i in range(_i, len(be)))'}),
+        'for k, v in region.subregion.graph.items()': LoopSpec(inv={}),
+    },
+    cuts={'entry = update_exiting(': {
+        # the entry being processed has not been processed before; the tree of sub-graphs below it is as on entry
+        'cur-new': 'name not in _i_seen and name in %s and name not in region_blocks and isinstance(%s[name], RegionBlock)'
+                   ' and any(t in region_blocks for t in %s[name]._jump_targets)'
+                   ' and entry.subregion == %s[name].subregion and entry.exiting == %s[name].exiting' % ((XG0,) * 5),
+        'tree-same': 'all(same_graph(s) for s in all_subs() if chain_root(s) == chain_root(entry.subregion))',
+        'hdr': 'region_header == old.%s and region_name == %s' % (XHDR0, XRN),
+    }, 'for name in entries': {
+        # the new sub-graph holds the blocks of the region as they were
+        'sub-def': XSUBDEF,
+        'ents': 'all(e in %s and e not in region_blocks for e in entries)' % XG0,
+        'xh': 'region_exiting in region_blocks and region_header in region_blocks',
+    }, 'region = RegionBlock(': {
+        'x-same': 'region_exiting in scfg.graph and same_value(scfg.graph[region_exiting], %s[region_exiting])' % XG0,
+        'sub-now': XSUBDEF,
+    }},
+    hints={
+        'dom': ['dom', 'untouched', 'requires:keys', 'block', 'def', 'result', 'cur-new', 'fact:assert'],
+        'call-pre:wf': ['cur-new', 'tree-same', 'requires:e-wf'],
+        'call-pre:keys': ['cur-new', 'tree-same', 'requires:e-keys'],
+        'call-pre:exiting': ['cur-new', 'tree-same', 'requires:e-exiting'],
+        'call-pre:branch': ['cur-new', 'tree-same', 'requires:e-branch'],
+        'call-pre:top-exiting': ['cur-new', 'tree-same', 'requires:e-top-exiting'],
+        'call-pre:fresh-name': ['cur-new', 'tree-same', 'hdr', 'requires:e-fresh-name'],
+        'call-pre:no-stale': ['cur-new', 'tree-same', 'hdr', 'requires:e-no-stale'],
+    },
+    properties=['C05', 'C04', 'C18'], gen='extract_region',
 ))
